@@ -141,13 +141,33 @@ def tlc(module, cfg=None, wd=None, workers=1, env=None, timeout=900, coverage=Fa
     e.pop("JAVA_TOOL_OPTIONS", None)
     if env:
         e.update(env)
+    # TLC's output goes to a file: a violated invariant makes it print the whole behaviour, which for a long trace whose
+    # states hold long sequences runs to hundreds of megabytes - only the head (the verdict) and the tail (statistics,
+    # post-condition output) are read back
+    import tempfile
+    of = tempfile.NamedTemporaryFile(prefix="tlc-out-", dir=wd if wd and os.path.isdir(wd) else None, delete=False)
     try:
-        p = subprocess.run(cmd, cwd=SPEC, env=e, timeout=timeout, stdout=subprocess.PIPE, stderr=subprocess.STDOUT)
-    except subprocess.TimeoutExpired:
-        raise ToolError("TLC timeout after %ds: %s" % (timeout, module))
+        try:
+            p = subprocess.run(cmd, cwd=SPEC, env=e, timeout=timeout, stdout=of, stderr=subprocess.STDOUT)
+        except subprocess.TimeoutExpired:
+            raise ToolError("TLC timeout after %ds: %s" % (timeout, module))
+        of.close()
+        size = os.path.getsize(of.name)
+        with open(of.name, "rb") as f:
+            if size <= 1 << 30:           # (plans printed by the Gen_* modules come this way too: tens of megabytes)
+                raw = f.read()
+            else:
+                head = f.read(64 << 20)
+                f.seek(size - (64 << 20))
+                raw = head + b"\n... [%d bytes of TLC output skipped] ...\n" % (size - (128 << 20)) + f.read()
+    finally:
+        try:
+            of.close(); os.remove(of.name)
+        except OSError:
+            pass
     r.wall = time.time() - t0
     r.rc = p.returncode
-    r.out = p.stdout.decode("utf-8", "replace")
+    r.out = raw.decode("utf-8", "replace")
     for line in r.out.splitlines():
         m = re.match(r"^(\d+) states generated, (\d+) distinct states found", line)
         if m:
